@@ -99,6 +99,10 @@ class IfConv(ast.NodeTransformer):
     def visit_Compare(self, node):
         self.generic_visit(node)
         if len(node.ops) == 1:
+            if isinstance(node.ops[0], (ast.In, ast.NotIn)):
+                # `k in table` must not be coerced to bool by Python: the runtime asks the container
+                call = _rt_call("contains", node.comparators[0], node.left)
+                return call if isinstance(node.ops[0], ast.In) else _rt_call("notl", call)
             return node
         parts = []
         left = node.left
